@@ -372,7 +372,9 @@ def r3_no_hidden_acceptance_logic(ctx, d, with_required: bool = True) -> None:
     bad_decos = ("field_validator", "model_validator", "validator", "root_validator", "field_serializer",
                  "model_serializer", "computed_field")
     bad_methods = ("__init__", "__new__", "model_post_init", "model_validate", "model_validate_json", "__get_pydantic_core_schema__",
-                   "__get_pydantic_json_schema__", "model_json_schema")
+                   "__get_pydantic_json_schema__", "model_json_schema",
+                   # (an enumeration's look-up hook: the validator calls it for values that are no member, the schema lists the members)
+                   "_missing_")
     n = 0
     for m in d.mods.values():
         for c in m.classes.values():
